@@ -20,4 +20,12 @@ CLAIMED = {
              "rewrite_toc_footer -> persist_header -> sync_all; writers of TicketRef.seq_no are a reviewed table. All-paths fact about the code, not a sample of tickets.",
         note="Not decided: Ed25519/serde_json themselves (external crates trusted), value-level history behaviour. Every CFG path treated as feasible.",
         design_ref="DESIGN.md §4 C25"),
+    "C12": dict(
+        technique="signature-based entry-point discovery + MIR dominance of exits/producers by the ACL call + edge-cut reachability inside the ACL filter",
+        text="Partial, strong: every public retrieval entry point that takes an ACL mode/context is found by signature; on every path each hit-carrying Ok exit "
+             "and each producer of derived output (context, citations, fragments, response aggregates) is dominated by apply_acl_to_search_hits called with the "
+             "entry's own context and mode, response.context/total_hits are recomputed under Enforce, nothing is added afterwards; inside the filter a hit is "
+             "kept only via decision.allowed or Audit, Enforce requires a validated tenant, allow() is dominated by parse success, tenant equality and (Public | match).",
+        note="Not decided: value-level set matching of principals/roles/groups and string normalisation. Callee summaries for 'grows the hit list' are bounded to depth 2.",
+        design_ref="DESIGN.md §4 C12"),
 }
